@@ -202,6 +202,21 @@ def sibling(ctx, qn, own_ok, closure, members):
                 else:
                     why = f'the handler catches only `{ht}`'
         ctx.check(ok, 'R1', at, fi.qualname, 'catch-all', 'the kern parse is inside try/except Exception (import never fails)', why)
+    # "import of the cell never fails": outside the catch-all nothing may raise for some cell text.  Positive evidence only: a
+    # tuple-unpacking of a split of the cell (the number of pieces depends on the text) on a path of import_token.
+    seen_unpack = set()
+    for sp in sps:
+        for e in sp.events:
+            n_ = e.node
+            if id(n_) in seen_unpack:
+                continue
+            seen_unpack.add(id(n_))
+            if isinstance(n_, ast.Assign) and any(isinstance(t, (ast.Tuple, ast.List)) for t in n_.targets) and isinstance(n_.value, ast.Call) \
+                    and isinstance(n_.value.func, ast.Attribute) and n_.value.func.attr in ('split', 'rsplit', 'splitlines') \
+                    and not any(n_ is c for t_ in tries for b_ in t_.body for c in ast.walk(b_)):
+                ctx.violation('R1', f'{fi.module.relpath}:{n_.lineno}', fi.qualname, 'import-can-fail:unpacked-split',
+                              f'`{src(n_)[:70]}` unpacks a split of the cell outside the catch-all: a cell with another number of pieces raises '
+                              f'ValueError, so the import of that cell fails instead of giving a verbatim token')
     n_handler = 0
     for sp in sps:
         if not any(e.kind == 'except' for e in sp.events):
